@@ -491,6 +491,12 @@ def r13(ctx, rep):
     rep.borrowed(C03.r5, ctx, "C01.R13", "the rows a composed take returns are those at the documented positions")
 
 
+def r14(ctx, rep):
+    # the rows of a relation literal are values of the denoted relation: each field must land in the column of its name
+    import C08
+    rep.borrowed(C08.r8, ctx, "C01.R14", "the rows of a relation literal are placed under the columns their fields name")
+
+
 def r9(ctx, rep):
     rep.rule("C01.R9", "the two functions that compute the row of a pipeline agree on what an Aggregate outputs", floor=2)
     syn = ctx.syn
@@ -636,5 +642,5 @@ def r12(ctx, rep):
 
 
 def run(ctx, rep):
-    for r in (r1, r2, r3, r4, r5, r6, r7, r8, r9, r10, r11, r12, r13):
+    for r in (r1, r2, r3, r4, r5, r6, r7, r8, r9, r10, r11, r12, r13, r14):
         rep.guard(r, ctx)
